@@ -321,6 +321,71 @@ def r8(ctx, R):
         R.check(crop == ['if pad > 0:\n    M = M[:, pad:-pad]'], f'{fname} :: the padding columns are removed symmetrically', f'{TH}:{fname}', 'if pad > 0: M = M[:, pad:-pad]', crop)
 
 
+_MIN_FUNCS = {'min', 'np.minimum', 'np.minimum.reduce', 'np.min', 'np.amin', 'np.fmin'}
+_WRAP_FUNCS = {'map', 'list', 'np.asarray', 'np.array', 'np.stack', 'np.vstack'}
+
+
+def _periodic_offsets(fname, text):
+    """The periodic distance must be a minimum over terms |x + c - p_bar|; returns the set of image offsets c.
+    Every |.| term may only sit under min-like calls and container / map wrappers; anything else is outside the vocabulary."""
+    tree = ast.parse(text, mode='eval').body
+    offs = set()
+
+    def lin(e):
+        # linear form {name: coeff, 1: const} of +,-,unary minus over names and numbers
+        if isinstance(e, ast.Constant) and isinstance(e.value, (int, float)):
+            return {1: e.value}
+        if isinstance(e, ast.Name):
+            return {e.id: 1}
+        if isinstance(e, ast.UnaryOp) and isinstance(e.op, ast.USub):
+            return {k: -v for k, v in lin(e.operand).items()}
+        if isinstance(e, ast.BinOp) and isinstance(e.op, (ast.Add, ast.Sub)):
+            a, b = lin(e.left), lin(e.right)
+            sg = 1 if isinstance(e.op, ast.Add) else -1
+            out = dict(a)
+            for k, v in b.items():
+                out[k] = out.get(k, 0) + sg * v
+            return out
+        raise AnalysisError(f'{fname}: term `{ast.unparse(e)}` of the periodic distance is outside the vocabulary of C11.R9')
+
+    def visit(e, under_min):
+        if isinstance(e, ast.Call):
+            f = ast.unparse(e.func)
+            if f in ('np.abs', 'abs', 'np.absolute', 'np.fabs') and len(e.args) == 1:
+                if not under_min:
+                    raise AnalysisError(f'{fname}: |.| term outside a minimum in the periodic distance')
+                form = {k: v for k, v in lin(e.args[0]).items() if v != 0}
+                const = form.pop(1, 0)
+                names = sorted(form)
+                if len(names) != 2 or 'p_bar' not in names or form['p_bar'] * form[[n for n in names if n != 'p_bar'][0]] != -1:
+                    raise AnalysisError(f'{fname}: |{ast.unparse(e.args[0])}| is not of the form |x + c - p_bar|')
+                offs.add(int(const * (-form['p_bar'])) if float(const).is_integer() else const * (-form['p_bar']))
+                return
+            if f in _MIN_FUNCS:
+                for a in e.args:
+                    visit(a, True)
+                return
+            if f in _WRAP_FUNCS:
+                for a in e.args:
+                    visit(a, under_min)
+                return
+            raise AnalysisError(f'{fname}: call `{f}` in the periodic distance is outside the vocabulary of C11.R9')
+        if isinstance(e, (ast.List, ast.Tuple)):
+            for a in e.elts:
+                visit(a, under_min)
+            return
+        if isinstance(e, ast.Lambda):
+            visit(e.body, under_min)
+            return
+        if isinstance(e, ast.Name):
+            return
+        raise AnalysisError(f'{fname}: `{ast.unparse(e)[:60]}` in the periodic distance is outside the vocabulary of C11.R9')
+
+    visit(tree, False)
+    return offs
+
+
+
 @rule('C11', 'C11.R9', 'transfer_helper: neighbour selection takes the k NEAREST points (ascending distance, first k) and returns their indices in ascending order; callers ask for k = the order', floor=4)
 def r9(ctx, R):
     repo = ctx.repo
@@ -330,21 +395,33 @@ def r9(ctx, R):
         R.fn(w)
         st = {ast.unparse(s.targets[0]): ast.unparse(s.value) for s in walk_no_nested(fn) if isinstance(s, ast.Assign) and len(s.targets) == 1}
         ret = [ast.unparse(s.value) for s in walk_no_nested(fn) if isinstance(s, ast.Return)]
-        if 'value_index_sorted' not in st or 'distance_to_p' not in st or len(ret) != 1:
-            raise AnalysisError(f'{fname}: the (distance, index) sorting idiom is gone - re-confirm rule C11.R9 against the new implementation')
+        if 'distance_to_p' not in st or len(ret) != 1:
+            raise AnalysisError(f'{fname}: no single `distance_to_p` / return - re-confirm rule C11.R9 against the new implementation')
         lam = lambda t: re.sub(r'lambda (\w+): \1\[', 'lambda s: s[', t).replace('[0:k]', '[:k]')
-        ok = lam(st.get('value_index_sorted')) == 'sorted(value_index, key=lambda s: s[0])' and [lam(r) for r in ret] == ['sorted(map(lambda s: s[1], value_index_sorted[:k]))']
-        app = [ast.unparse(c) for c in ast.walk(fn) if isinstance(c, ast.Call) and ast.unparse(c.func) == 'value_index.append']
-        ok = ok and app == ['value_index.append((d, i))']
-        zl = [ast.unparse(l.iter) for l in walk_no_nested(fn) if isinstance(l, ast.For)]
-        ok = ok and zl == ['zip(distance_to_p, range(distance_to_p.size), strict=True)']
-        R.check(ok, f'{fname} :: (distance, index) pairs sorted ascending by distance, first k, indices ascending', w, 'sorted(pairs, key=distance)[0:k] -> sorted indices', {'sort': st.get('value_index_sorted'), 'return': ret, 'pairs': app, 'loop': zl})
+        if 'value_index_sorted' in st:
+            # idiom 1: explicit (distance, index) pairs, python's stable sort, first k, indices ascending
+            ok = lam(st.get('value_index_sorted')) == 'sorted(value_index, key=lambda s: s[0])' and [lam(r) for r in ret] == ['sorted(map(lambda s: s[1], value_index_sorted[:k]))']
+            app = [ast.unparse(c) for c in ast.walk(fn) if isinstance(c, ast.Call) and ast.unparse(c.func) == 'value_index.append']
+            ok = ok and app == ['value_index.append((d, i))']
+            zl = [ast.unparse(l.iter) for l in walk_no_nested(fn) if isinstance(l, ast.For)]
+            ok = ok and zl == ['zip(distance_to_p, range(distance_to_p.size), strict=True)']
+            got = {'sort': st.get('value_index_sorted'), 'return': ret, 'pairs': app, 'loop': zl}
+        else:
+            # idiom 2: a STABLE argsort of the distances, first k, indices ascending (ties go to the lower index, as in idiom 1)
+            r0 = lam(ret[0]).replace('.tolist()', '')
+            m = re.fullmatch(r"sorted\(np\.argsort\(distance_to_p, kind='(\w+)'\)\[:k\]\)", r0)
+            if not m:
+                raise AnalysisError(f'{fname}: neither the (distance, index) sorting idiom nor a stable argsort - re-confirm rule C11.R9 against the new implementation')
+            ok = m.group(1) in ('stable', 'mergesort')
+            got = {'return': ret}
+        R.check(ok, f'{fname} :: (distance, index) pairs sorted ascending by distance, first k, indices ascending', w, 'sorted(pairs, key=distance)[0:k] -> sorted indices  |  sorted(argsort(distance, stable)[:k])', got)
         if dist:
             R.check(st.get('distance_to_p') == dist, f'{fname} :: distance is |ps - p|', w, dist, st.get('distance_to_p'))
         else:
             d = st.get('distance_to_p', '')
-            okd = 'min([np.abs(tk + 1 - p_bar), np.abs(tk - p_bar), np.abs(tk - 1 - p_bar)])' in d and st.get('p_bar') == 'p - np.floor(p / 1.0) * 1.0'
-            R.check(okd, f'{fname} :: distance is the minimum over the periodic images -1, 0, +1 of the point reduced to [0,1)', w, 'min(|tk+1-p|, |tk-p|, |tk-1-p|)', d[:140])
+            offs = _periodic_offsets(fname, d)
+            okd = offs == {-1, 0, 1} and st.get('p_bar') == 'p - np.floor(p / 1.0) * 1.0'
+            R.check(okd, f'{fname} :: distance is the minimum over the periodic images -1, 0, +1 of the point reduced to [0,1)', w, 'min(|tk+1-p|, |tk-p|, |tk-1-p|) with p reduced to [0,1)', {'image offsets': sorted(offs), 'p_bar': st.get('p_bar'), 'expr': d[:140]})
     calls = []
     for fname in ('restriction_matrix_1d', 'interpolation_matrix_1d'):
         fn = repo.func(TH, fname)
